@@ -92,7 +92,7 @@ Lemma eval_s_S : forall (b0 flag : bool) (dl : list (N * list str)) (n : nat) (c
           match lookup_mac mu m with None => None | Some (ps, mbody, ce') =>
           match bind ps vs with None => None | Some pr =>
           match eval_ss b0 flag dl n ce' rt mu (Some (CC body ce)) (pr ++ r) mbody with None => None
-          | Some (o, _, _) => Some (o, r, mu)        (* raw write of Markup(o) / o *)
+          | Some (o, _, _) => Some (out_piece (on_now b0 ce rt) (wrap rt o), r, mu)   (* escape / str of the macro's result *)
           end end end end
       | SFilterBlock f args body =>
           match eval_ss b0 flag dl n ce rt mu k r body with None => None | Some (o, _, _) =>
@@ -381,7 +381,7 @@ Section C16.
         pose proof (IHss ce' mu (Some (CC body ce)) (pr1 ++ r1) (pr2 ++ r2) mbody Hce' Hmu Hk' Hr' Hb) as Rss.
         both Rss as x1 x2.
         destruct x1 as [[o1 r1'] m1], x2 as [[o2 r2'] m2]. cbn in Rss. destruct Rss as (Ho & _).
-        cbn [orel]. apply sres_intro; assumption.
+        rewrite on_now_on, on_now_off by assumption. cbn [orel out_piece wrap esc_str esc raw]. apply sres_intro; assumption.
       + cbn [oks16 ok_s] in Hs. fold oke16 oks16 in Hs.
         apply andb_true_iff in Hs as [Hs Hbody]. apply andb_true_iff in Hs as [Hf Hargs].
         unf.
@@ -647,7 +647,7 @@ Section C15.
           apply (bind_ok ps vs pr); [|exact Eb]. exact (IHes _ _ _ _ _ _ Hce Hmu Hk Hr Hargs Es). }
         assert (Hk' : k_on (Some (CC body ce))) by (split; assumption).
         destruct (IHss _ _ _ _ _ _ Hce' Hmu Hk' Hr' Hb Ess) as (Ho & _).
-        repeat split; assumption.
+        unfold ce_on in Hce. rewrite Hce. cbn [out_piece wrap esc_str esc raw]. repeat split; assumption.
       + cbn [oks15 ok_s] in Hs. fold oke15 oks15 in Hs.
         apply andb_true_iff in Hs as [Hs Hbody]. apply andb_true_iff in Hs as [Hf Hargs].
         destruct (ev_ss n ce true mu k r body) as [[[o r'] m']|] eqn:Ess; [|discriminate].
